@@ -426,6 +426,71 @@ func genStore() (string, error) {
 	}
 	fmt.Fprintf(&b, "/-- what `Indexer.hasPendingWrites` returns -/\ndef hasPendingWritesReturns : String := %q\n", pending)
 	fmt.Fprintf(&b, "/-- per function, in source order: the view lookups `t.db.Get(…)`, the cache calls `blockCache.*(…)`, `t.getBlock(…)` -/\ndef blockCacheUse : List (String × String) := %s\n\n", pairList(cacheUse))
+	// 9. the block-property collector of store/versioned_store.go: which point keys contribute no version
+	//    interval to their sstable block/table (historical readers skip blocks whose interval misses their window)
+	vpath := filepath.Join(*repo, "store/versioned_store.go")
+	vsrc, err := os.ReadFile(vpath)
+	if err != nil {
+		return "", err
+	}
+	vfile, err := g.ParseFile(vpath)
+	if err != nil {
+		return "", err
+	}
+	vtext := func(n ast.Node) string {
+		return strings.Join(strings.Fields(string(vsrc[vfile.Fset.Position(n.Pos()).Offset:vfile.Fset.Position(n.End()).Offset])), " ")
+	}
+	mpk := vfile.FindFunc("versionedCollector", "MapPointKey")
+	if mpk == nil || mpk.Body == nil {
+		return "", fmt.Errorf("store/versioned_store.go: versionedCollector.MapPointKey not found")
+	}
+	var ignores, shape []string
+	interval := ""
+	for _, st := range mpk.Body.List {
+		switch v := st.(type) {
+		case *ast.IfStmt:
+			empty := v.Init == nil && v.Else == nil && len(v.Body.List) == 1
+			if empty {
+				r, ok := v.Body.List[0].(*ast.ReturnStmt)
+				empty = ok && len(r.Results) == 2 && vtext(r.Results[0]) == "sstable.BlockInterval{}" && vtext(r.Results[1]) == "nil"
+			}
+			if !empty {
+				return "", fmt.Errorf("store/versioned_store.go: MapPointKey has an if-statement that is not `if c { return sstable.BlockInterval{}, nil }`")
+			}
+			ignores = append(ignores, vtext(v.Cond))
+			shape = append(shape, "ignore-if")
+		case *ast.AssignStmt:
+			shape = append(shape, vtext(v))
+		case *ast.ReturnStmt:
+			if len(v.Results) == 2 {
+				interval = vtext(v.Results[0])
+			}
+			shape = append(shape, "return")
+		default:
+			shape = append(shape, "other: "+vtext(st))
+		}
+	}
+	fmt.Fprintf(&b, "/-- `versionedCollector.MapPointKey`: the conditions under which a point key contributes the EMPTY interval -/\ndef mapPointKeyIgnores : List String := %s\n", strList(ignores))
+	fmt.Fprintf(&b, "/-- its statements in order (assignments verbatim) -/\ndef mapPointKeyShape : List String := %s\n", strList(shape))
+	fmt.Fprintf(&b, "/-- the interval every other point key contributes -/\ndef mapPointKeyInterval : String := %q\n", interval)
+	var filters [][2]string
+	for _, file := range []string{"store/store.go", "store/versioned_store.go"} {
+		src, err := os.ReadFile(filepath.Join(*repo, file))
+		if err != nil {
+			return "", err
+		}
+		pf, err := g.ParseFile(filepath.Join(*repo, file))
+		if err != nil {
+			return "", err
+		}
+		ast.Inspect(pf.AST, func(n ast.Node) bool {
+			if c, ok := n.(*ast.CallExpr); ok && (g.ExprText(c.Fun) == "newTargetWindowFilter" || g.ExprText(c.Fun) == "sstable.NewBlockIntervalFilter") {
+				filters = append(filters, [2]string{file, strings.Join(strings.Fields(string(src[pf.Fset.Position(c.Pos()).Offset:pf.Fset.Position(c.End()).Offset])), " ")})
+			}
+			return true
+		})
+	}
+	fmt.Fprintf(&b, "/-- the version-window filters readers install, and how the window becomes an interval -/\ndef versionWindowFilters : List (String × String) := %s\n\n", pairList(filters))
 	b.WriteString("end Canopy.Gen.Store\n")
 	return b.String(), nil
 }
